@@ -15,7 +15,10 @@
 -/
 import ControlModel.Proofs.EnvHooks
 import ControlModel.Proofs.EnvRunOnce
+import ControlModel.Proofs.EnvOnce
+import ControlModel.Proofs.TrigExpr
 import ControlModel.Gen.C08Facts
+import ControlModel.Gen.C08Weights
 
 open EnvM
 
@@ -284,3 +287,124 @@ example :
       { id := 1, isTask := false, critical := true, trig := .before .CONFIGURE, tw := 20, await := .before .CONFIGURE, aw := 10, outcomes := [] }]
     (pendingAt (handleHooks {} hooks (.before .CONFIGURE) posW).1 (.before .CONFIGURE) 10).map (·.hook) = [1] ∧
     (pendingAt (handleHooksOf legacyAwaitCfg {} hooks (.before .CONFIGURE) posW).1 (.before .CONFIGURE) 10).map (·.hook) = [0, 1] := by decide
+
+/-! ### the weight as WRITTEN in the template (since seed C08-6)
+
+  Every weight the theorems above speak about is an integer that some `trigger:` / `await:` string of a workflow
+  template DECLARES. `Model/TrigExpr.lean` is the documented reading of such a string (cut at the last sign,
+  decimal integer, 0 when what follows is not a number); the harness hands hooks to the real core with their
+  weights written as texts, and the driver gives the model the integer this reading returns. -/
+
+set_option maxRecDepth 100000 in
+/-- The reader of the code IS the documented reading, on the whole grid: `callable.ParseTriggerExpression` of the
+    linked core, evaluated by `vh gen` on every expression of Gen/C08Weights.lean (trigger names × every sign ×
+    zero padding × numbers with the digits 8 and 9 and several digits; base prefixes, digit separators, blanks,
+    exponents, a lone sign, two signs, no weight, the int32 and int64 borders), returns the name and the weight
+    the model returns. The grid holds the rows that tell a decimal reader from any other (`+010` is ten,
+    `-010` minus ten, `+08` eight, `+0x10` not a number, a weight beyond int32 itself). -/
+theorem C08_trigger_text_is_code :
+    tableAgrees Gen.C08Weights.table = true ∧
+    (["b_X+010", "b_X-010", "b_X+08", "b_X-0009", "b_X+0x10", "b_X+2147483648", "b_X", "before_CONFIGURE+00010"].all fun e =>
+      Gen.C08Weights.table.any fun r => r.1 == e.toList) = true := by
+  decide
+
+/-- The weight of a well-formed expression is the integer it declares: whatever the trigger name (signs inside it
+    included — the cut is at the LAST sign), a sign followed by decimal digits reads as that decimal integer. -/
+theorem C08_weight_text_decimal (name t : List Char) (hw : wellFormedWeight t = true) (hr : weightInRange t = true) :
+    parseTriggerExpr (name ++ t) = (name, declaredWeight t) :=
+  parseTriggerExpr_wellFormed name t hw hr
+
+/-- Padding is irrelevant: any number of leading zeros between the sign and the digits leaves name and weight as
+    they are (`before_CONFIGURE+010` = `before_CONFIGURE+10`, `after_RESET-007` = `after_RESET-7`), for every name
+    and every non-empty digit string. -/
+theorem C08_weight_padding_irrelevant (name : List Char) (s : Char) (k : Nat) (ds : List Char)
+    (hs : isSign s = true) (hne : ds ≠ []) (hd : ∀ c ∈ ds, isDigit c = true) :
+    parseTriggerExpr (name ++ s :: (List.replicate k '0' ++ ds)) = parseTriggerExpr (name ++ s :: ds) := by
+  have hns : ∀ c ∈ ds, isSign c = false := fun c hc => isDigit_not_sign c (hd c hc)
+  have hns' : ∀ c ∈ List.replicate k '0' ++ ds, isSign c = false := by
+    intro c hc
+    rcases List.mem_append.mp hc with hc | hc
+    · rw [(List.mem_replicate.mp hc).2]; decide
+    · exact hns c hc
+  simp only [parseTriggerExpr, splitLastSign_append name s _ hs hns', splitLastSign_append name s ds hs hns,
+    weightOfText_zeros s hs k ds hne]
+
+/-- Hooks of one moment run in ascending order of their DECLARED integer, however it is written: two hooks
+    triggered at `m` whose weights are what well-formed texts `th`, `tg` declare (after any names), the first
+    declaring the smaller integer, both weights of the pass — the pass visits the first one's weight strictly
+    before the second one's (and visits each exactly once: `C08_weights_ascending`). Equal declared integers are
+    one weight: such hooks are started together (`C08_started_together_at_trigger`). -/
+theorem C08_order_by_declared_integer (env : Env) (hooks : List Hook) (m : Moment) (p : Int → Bool) (h g : Hook)
+    (nh ng th tg : List Char) (hh : h ∈ hooks) (hg : g ∈ hooks) (hht : h.trig = m) (hgt : g.trig = m)
+    (hwh : wellFormedWeight th = true) (hwg : wellFormedWeight tg = true)
+    (hrh : weightInRange th = true) (hrg : weightInRange tg = true)
+    (hhw : h.tw = (parseTriggerExpr (nh ++ th)).2) (hgw : g.tw = (parseTriggerExpr (ng ++ tg)).2)
+    (hph : p h.tw = true) (hpg : p g.tw = true) (hlt : declaredWeight th < declaredWeight tg) :
+    ∃ l1 l2 l3, weightsFor env hooks m p = l1 ++ declaredWeight th :: (l2 ++ declaredWeight tg :: l3) := by
+  rw [parseTriggerExpr_wellFormed nh th hwh hrh] at hhw
+  rw [parseTriggerExpr_wellFormed ng tg hwg hrg] at hgw
+  simp only at hhw hgw
+  rw [← hhw, ← hgw]
+  exact ascending_split _ (weightsFor_ascending env hooks m p).1 _ _
+    (mem_weightsFor_of_trig env hooks m p h hh hht hph) (mem_weightsFor_of_trig env hooks m p g hg hgt hpg) (by rw [hhw, hgw]; exact hlt)
+
+/-- Non-vacuity: the writings of one integer; what is not a number; the cut at the last sign. -/
+example :
+    parseTriggerExpr "before_CONFIGURE+010".toList = ("before_CONFIGURE".toList, 10) ∧
+    parseTriggerExpr "before_CONFIGURE+10".toList = ("before_CONFIGURE".toList, 10) ∧
+    parseTriggerExpr "after_RESET-007".toList = ("after_RESET".toList, -7) ∧
+    parseTriggerExpr "enter_RUNNING+08".toList = ("enter_RUNNING".toList, 8) ∧
+    parseTriggerExpr "enter_RUNNING".toList = ("enter_RUNNING".toList, 0) ∧
+    parseTriggerExpr "enter_RUNNING-0".toList = ("enter_RUNNING".toList, 0) ∧
+    parseTriggerExpr "enter_RUNNING+0x10".toList = ("enter_RUNNING".toList, 0) ∧
+    parseTriggerExpr "a-b+3".toList = ("a-b".toList, 3) ∧
+    wellFormedWeight "+010".toList = true ∧ weightInRange "+010".toList = true ∧ declaredWeight "+010".toList = 10 ∧
+    declaredWeight "-09".toList < declaredWeight "+008".toList := by decide
+
+/-! ### how often a hook is begun (since seed C10-6) -/
+
+/-- **Exactly once per pass.** With pairwise different hook ids, one pass of handleHooks begins a hook (starts the
+    call, runs the task hook) at most once — not at all at another moment than its trigger moment or when its
+    weight is not one of the pass, and EXACTLY once when the moment is its trigger moment, its weight is one of the
+    pass, and no critical failure stopped the pass. For all environments, hook sets, moments and predicates. -/
+theorem C08_started_once_per_pass (env : Env) (hooks : List Hook) (m : Moment) (p : Int → Bool) (h : Hook)
+    (hmem : h ∈ hooks) (hU : (hooks.map (·.id)).Nodup) :
+    begunCount h.id (handleHooks env hooks m p).2.1 ≤ (if h.trig = m ∧ p h.tw = true then 1 else 0) ∧
+    ((handleHooks env hooks m p).2.2 = 0 →
+      begunCount h.id (handleHooks env hooks m p).2.1 = if h.trig = m ∧ p h.tw = true then 1 else 0) :=
+  handleHooks_begunCount env hooks m p h hmem hU
+
+/-- **Exactly once per occurrence of its moment.** The negative and the non-negative pass of a moment — on
+    whatever environments: the bookkeeping between them (run number, stamps) does not matter — together begin a
+    hook at most once, and exactly once at its trigger moment when neither pass was stopped by a critical failure:
+    no weight belongs to both passes, whatever the await expressions of the calls say. -/
+theorem C08_started_once_per_moment (env1 env2 : Env) (hooks : List Hook) (m : Moment) (h : Hook)
+    (hmem : h ∈ hooks) (hU : (hooks.map (·.id)).Nodup) :
+    begunCount h.id (handleHooks env1 hooks m negW).2.1 + begunCount h.id (handleHooks env2 hooks m posW).2.1 ≤
+      (if h.trig = m then 1 else 0) ∧
+    ((handleHooks env1 hooks m negW).2.2 = 0 → (handleHooks env2 hooks m posW).2.2 = 0 →
+      begunCount h.id (handleHooks env1 hooks m negW).2.1 + begunCount h.id (handleHooks env2 hooks m posW).2.1 =
+        if h.trig = m then 1 else 0) :=
+  twoPass_begunCount env1 env2 hooks m h hmem hU
+
+/-- …and at most once per transition: before_<event>, leave_<state>, enter_<state>, after_<event> are four
+    different moments, each handled by its two passes, so `Sm.Event` — cancelled anywhere or not, with any
+    failures — begins no hook twice. -/
+theorem C08_started_at_most_once_per_transition (env : Env) (hooks : List Hook) (e : Ev) (b r : Bool) (h : Hook)
+    (hmem : h ∈ hooks) (hU : (hooks.map (·.id)).Nodup) :
+    begunCount h.id (fsmEvent env hooks e b r).2.1 ≤ 1 :=
+  fsmEvent_begunCount env hooks e b r h hmem hU
+
+/-- Non-vacuity, and the class of seed C10-6: a call triggered at before_START_ACTIVITY-10 that awaits
+    before_START_ACTIVITY+10, and a second hook triggered at +10. The negative pass begins the first only (its
+    await weight +10 is not a weight of that pass), the other pass begins the second only and collects both. -/
+example :
+    let hooks : List Hook := [
+      { id := 0, isTask := false, critical := false, trig := .before .START_ACTIVITY, tw := -10, await := .before .START_ACTIVITY, aw := 10, outcomes := [] },
+      { id := 1, isTask := false, critical := false, trig := .before .START_ACTIVITY, tw := 10, await := .before .START_ACTIVITY, aw := 10, outcomes := [] }]
+    let env : Env := { st := .CONFIGURED }
+    weightsFor env hooks (.before .START_ACTIVITY) negW = [-10] ∧
+    begunIds (handleHooks env hooks (.before .START_ACTIVITY) negW).2.1 = [0] ∧
+    begunIds (beforeEvent env hooks .START_ACTIVITY false).2.1 = [0, 1] ∧
+    ((beforeEvent env hooks .START_ACTIVITY false).2.1.filterMap fun | .await _ w is => some (w, is.map (·.hook)) | _ => none) = [(10, [0, 1])] := by
+  decide
